@@ -324,9 +324,16 @@ def failure_case(kind: str):
         import random
 
         make_sources(random.Random(1), tmp, 1)
+        # files that share the missing input's stem (another ending, a sub-folder): they are not the input
+        (tmp / "ghost.json").write_text('{"a": 1}')
+        (tmp / "ghost.foam").write_text("a 1;\n")
+        (tmp / "ghost.cpp").write_text("a 1;\n")
+        (tmp / "ghost.xml").write_text("<r><a>1</a></r>")
+        (tmp / "sub").mkdir()
+        (tmp / "sub" / "ghost.dict").write_text("a 1;\n")
         before = snapshot(tmp)
         kind, _, deco = kind.partition("+")
-        argv = {"missing": ["nosuchfile"], "bad-o": ["src0", "-o", "yaml"], "bad-mode": ["src0", "--mode", "x"],
+        argv = {"missing": ["nosuchfile"], "missing-stem": ["ghost"], "missing-substem": ["sub/ghost"], "bad-o": ["src0", "-o", "yaml"], "bad-mode": ["src0", "--mode", "x"],
                 "bad-log-level": ["src0", "--log-level", "LOUD"], "no-input": [],
                 "unknown-scope": ["src0", "--scope", "nosuchscope"], "unknown-scope-list": ["src0", "--scope", "[scopeA, nope]"]}[kind]
         # the failing element combined with other, valid options, in front of it and behind it
@@ -338,7 +345,7 @@ def failure_case(kind: str):
             return ("traceback", f"{kind}: traceback printed: {err[-300:]}")
         changed = sorted(set(after.items()) ^ set(before.items()))
         names = sorted({k for k, _ in changed})
-        if kind in ("missing", "unknown-scope", "unknown-scope-list"):
+        if kind in ("missing", "missing-stem", "missing-substem", "unknown-scope", "unknown-scope-list"):
             # the command line itself is valid: the log file asked for with --log is an extra output by design
             names = [n for n in names if not str(n).endswith("run.log") and str(n) not in ("logs", "logs/deep")]
         if names:
@@ -475,7 +482,7 @@ def run(ctx):
     #     onto the pre-existing parsed.<name>) for native and Foam output, model vs implementation: name and bytes
     parse_model_correspondence(ctx, rng, [f for f in matrix if f["out"] not in ("json", "xml") and not f["log"] and f["verb"] is None])
     # 3. failure cases
-    whats = [k + d for k in ("missing", "bad-o", "bad-mode", "bad-log-level", "no-input", "unknown-scope", "unknown-scope-list")
+    whats = [k + d for k in ("missing", "missing-stem", "missing-substem", "bad-o", "bad-mode", "bad-log-level", "no-input", "unknown-scope", "unknown-scope-list")
              for d in ("", "+log<", "+log>", "+logdeep<", "+opts<", "+opts>")]
     for what in whats:
         c = {"kind": "failure", "what": what}
